@@ -211,7 +211,13 @@ fn foreign_record(rng: &mut Rng, known: &[KeyCode], is_known: &[bool]) -> (&'sta
         ("unknown-code", kernel_record(sec, usec, 1, c, rng.below(2) as i32))
       }
     },
-    _ => ("syn", kernel_record(sec, usec, 0, 0, 0))
+    _ => {
+      // every EV_SYN code the kernel defines (SYN_REPORT 0, SYN_CONFIG 1, SYN_MT_REPORT 2, SYN_DROPPED 3) and a few it does not
+      let codes: [u16; 8] = [0, 0, 1, 2, 3, 3, 4, 15];
+      let code = if rng.chance(7, 8) { *rng.pick(&codes) } else { rng.below(65536) as u16 };
+      let value = match rng.below(4) { 0 | 1 => 0, 2 => 1, _ => rng.next() as i32 };
+      ("syn", kernel_record(sec, usec, 0, code, value))
+    }
   }
 }
 
